@@ -203,6 +203,37 @@ pub fn generate(files: &[SourceFile], report: &mut Report) -> String {
     out.push_str(&format!("def readRootNames : List String := {}\n", ls(&roots.iter().filter(|r| id_of.contains_key(**r)).map(|r| r.to_string()).collect::<Vec<_>>())));
     out.push_str(&format!("def readRoots : List Nat := [{}]\n", root_ids.iter().map(|i| i.to_string()).collect::<Vec<_>>().join(", ")));
     out.push_str(&format!("def readClosure : List Nat := [{}]\n", clos.iter().map(|i| i.to_string()).collect::<Vec<_>>().join(", ")));
+    // the order, in the source of `transfer`, of: bin-lock acquisitions, stores into bins of the
+    // next table ("fill"), the store of the forwarding marker into the old table ("forward"), and
+    // retirements ("retire")
+    out.push_str("\n/-- `transfer`, in source order: lock / fill (store_bin on next_table) / forward (store_bin on table) / retire -/\ndef transferOrder : List String := [");
+    let mut order: Vec<String> = vec![];
+    if let Some(f) = file(files, "map.rs") {
+        if let Some(fi) = find_fn(f, "transfer") {
+            struct O<'a> {
+                out: &'a mut Vec<String>,
+            }
+            impl<'ast, 'a> Visit<'ast> for O<'a> {
+                fn visit_expr_method_call(&mut self, m: &'ast syn::ExprMethodCall) {
+                    // receiver first (source order of evaluation)
+                    syn::visit::visit_expr_method_call(self, m);
+                    let name = m.method.to_string();
+                    let recv = tokens_of(&m.receiver);
+                    match name.as_str() {
+                        "store_bin" => self.out.push(if recv == "next_table" { "fill".into() } else if recv == "table" { "forward".into() } else { format!("store_bin:{}", recv) }),
+                        "lock" if m.args.is_empty() => self.out.push("lock".into()),
+                        "retire_shared" | "defer_retire" => self.out.push("retire".into()),
+                        _ => {}
+                    }
+                }
+            }
+            let mut o = O { out: &mut order };
+            o.visit_block(fi.block);
+        }
+    }
+    out.push_str(&order.iter().map(|x| lean_str(x)).collect::<Vec<_>>().join(", "));
+    out.push_str("]\n");
+    report.count("transfer_order", order.len());
     out.push_str("\nend Flurry.Gen\n");
     report.count("read_closure", clos.len());
     report.count("atomic_sites", sites.len());
